@@ -7,7 +7,7 @@ import (
 	"cosmossdk.io/math"
 	"github.com/ExocoreNetwork/exocore/utils"
 	sdk "github.com/cosmos/cosmos-sdk/types"
-	"github.com/ethereum/go-ethereum/common"
+	"github.com/ethereum/go-ethereum/common/hexutil"
 )
 
 // NewGenesis returns a new genesis state with the given inputs.
@@ -33,6 +33,15 @@ func DefaultGenesis() *GenesisState {
 	return NewGenesis(
 		DefaultParams(), []ClientChainInfo{}, []StakingAssetInfo{}, []DepositsByStaker{}, []AssetsByOperator{},
 	)
+}
+
+// isClientChainAddress reports whether s is a 0x-prefixed hexadecimal address of a length that
+// a client chain can have: 20 bytes for EVM chains, up to 32 bytes for others (the address length
+// is a property of the client chain, which the gateway may even update after assets and stakers
+// of the chain exist, so the stored ids are not tied to the chain's current value here).
+func isClientChainAddress(s string) bool {
+	b, err := hexutil.Decode(s)
+	return err == nil && len(b) >= MinClientChainAddrLength && len(b) <= GeneralClientChainAddrLength
 }
 
 // ValidateClientChains performs basic client chains validation
@@ -86,9 +95,9 @@ func (gs GenesisState) ValidateTokens(lzIDs map[uint64]struct{}) (map[string]mat
 				info.AssetBasicInfo.Name, address,
 			)
 		}
-		// build for 0x addresses only.
-		// TODO: consider removing this check for non-EVM client chains.
-		if !common.IsHexAddress(address) {
+		// 20 bytes for EVM chains; the precompile registers client chains with longer
+		// addresses as well.
+		if !isClientChainAddress(address) {
 			return errorsmod.Wrapf(
 				ErrInvalidGenesisData,
 				"not hex address for token %s, address: %s",
@@ -128,10 +137,12 @@ func (gs GenesisState) ValidateTokens(lzIDs map[uint64]struct{}) (map[string]mat
 func (gs GenesisState) ValidateDeposits(lzIDs map[uint64]struct{}, tokensTotalStaking map[string]math.Int) error {
 	validationFunc := func(_ int, depositByStaker DepositsByStaker) error {
 		stakerID := depositByStaker.StakerID
-		// validate the stakerID
+		// validate the stakerID (its address is one of a client chain, not necessarily 20 bytes)
+		var stakerAddr string
 		var stakerClientChainID uint64
 		var err error
-		if _, stakerClientChainID, err = ValidateID(stakerID, true, true); err != nil {
+		if stakerAddr, stakerClientChainID, err = ValidateID(stakerID, true, false); err != nil ||
+			!isClientChainAddress(stakerAddr) {
 			return errorsmod.Wrapf(
 				ErrInvalidGenesisData,
 				"invalid stakerID: %s",
